@@ -188,6 +188,9 @@ func VerifC01Concurrent() {
 	if verifapi.Bool("hostlinked") {
 		db.AddAccountNode(w.wallets[0], host)
 	}
+	if verifapi.Bool("hostcredited") { // earlier earnings of the host (trial or wallet)
+		db.AddNodeBalance(host, verifapi.BigInt("hostcredit"))
+	}
 	for i, c := range clients {
 		db.SetNode(store.Node{ID: c, Kind: "geth", LastSeen: t0})
 		if verifapi.Bool(fmt.Sprint("clientlinked", i)) {
@@ -202,11 +205,34 @@ func VerifC01Concurrent() {
 	db.UpdateNodePeers(host, nil, 0)
 	before := w.total()
 	done := make(chan error, 2)
-	for _, c := range clients {
-		go func(c store.NodeID) {
-			_, err := pool.VerifUpdate(w.p, context.Background(), string(c), string(host))
+	w.pay = &PaymentService{NonceStore: db, AccountStore: db, BalanceStore: w.dep}
+	switch verifapi.Param("mode", 0) {
+	case 0: // two clients' keep-alives
+		for _, c := range clients {
+			go func(c store.NodeID) {
+				_, err := pool.VerifUpdate(w.p, context.Background(), string(c), string(host))
+				done <- err
+			}(c)
+		}
+	case 1: // a client's keep-alive credits the host while the host is being linked to a wallet
+		go func() {
+			_, err := pool.VerifUpdate(w.p, context.Background(), string(clients[0]), string(host))
 			done <- err
-		}(c)
+		}()
+		go func() {
+			wal := string(w.wallets[verifapi.Choose("linkwallet", 2)])
+			nonce := pool.VerifFreshNonce() + 1000
+			done <- w.pay.AddNode(context.Background(), sigs.SignFor(wal, "pool_addNode", nonce, string(host)), wal, nonce, string(host))
+		}()
+	default: // a client's keep-alive credits the host while the host sends its own keep-alive
+		go func() {
+			_, err := pool.VerifUpdate(w.p, context.Background(), string(clients[0]), string(host))
+			done <- err
+		}()
+		go func() {
+			_, err := pool.VerifUpdate(w.p, context.Background(), string(host))
+			done <- err
+		}()
 	}
 	for range clients {
 		<-done
